@@ -30,26 +30,40 @@ def S(label, gamma, timeout, ids, alph, flags=e1.F_DUMP | e1.F_STATS, maxdepth=N
 
 
 
-def reload_alphabet(ids):
+def reload_alphabet(ids, replies=('OKA', 'MORE'), files=('no-a.conf', 'no-b.conf', 'ghost.conf', 'orig.conf')):
     """Hurry-up scenario of one client plus reloads of the service table at any point: an awaited or an idle service is removed
     (so that a slot is vacated below or above the awaited one), a differently named login service (ghost.svc) is added - possibly
     into the vacated slot - or the original table returns."""
-    base = alpha.make(ids, data=('H',), ends=('D',), passwords=('x', 'bang'), replies=('OKA', 'MORE'), old_replies=(), malformed=(),
-                      ghost_replies=('OKA', 'MORE'), pbudget=1, dead_probes=False, reannounce=False)
+    base = alpha.make(ids, data=('H',), ends=('D',), passwords=('x', 'bang'), replies=replies, old_replies=(), malformed=(),
+                      ghost_replies=replies, pbudget=1, dead_probes=False, reannounce=False)
     def fn(st, w):
-        return base(st, w) + [('RL', 'no-a.conf'), ('RL', 'no-b.conf'), ('RL', 'ghost.conf'), ('RL', 'orig.conf')]
+        return base(st, w) + [('RL', f) for f in files]
     return fn
 
 
-def reload_search(tier):
-    services = [('a.svc', 'login'), ('b.svc', 'dronecheck'), ('c.svc', 'login')]
-    rules = rules_for(services)
-    files = {'no-a.conf': lambda md: e1.conf_text(md, services=services[1:], timeout=0, rules=rules),
-             'no-b.conf': lambda md: e1.conf_text(md, services=[services[0], services[2]], timeout=0, rules=rules),
-             'ghost.conf': lambda md: e1.conf_text(md, services=[('b.svc', 'dronecheck'), ('ghost.svc', 'login')], timeout=0, rules=rules),
-             'orig.conf': lambda md: e1.conf_text(md, services=services, timeout=0, rules=rules)}
-    return dict(label='solo/reloads/login+drone+login/t0', services=services, rules=rules, timeout=0, ids=[1], alphabet=reload_alphabet([1]), flags=e1.F_DUMP | e1.F_STATS,
-                maxdepth=12 if tier != 'quick' else 7, maxstates=60000 if tier != 'quick' else 8000, keep_refs=True, reload_files=files, merge_check=False)
+def reload_search(tier, variant='three'):
+    """variant 'three': three services, the table shrinks and grows around an awaited one (holds and routing: C02/C03/C04).
+    variant 'slot': two services and a rule on the newcomer; a service that has answered leaves, a differently named one arrives in a
+    LATER reload (the only way a vacated slot is reused) - the newcomer must be asked, and nothing its predecessor said may count for it
+    (C05/C06/C11).  The observer follows the table in force (World per reload target)."""
+    if variant == 'three':
+        services = [('a.svc', 'login'), ('b.svc', 'dronecheck'), ('c.svc', 'login')]
+        rules = rules_for(services)
+        tables = {'no-a.conf': services[1:], 'no-b.conf': [services[0], services[2]], 'ghost.conf': [('b.svc', 'dronecheck'), ('ghost.svc', 'login')], 'orig.conf': services}
+        alph = reload_alphabet([1])
+        label = 'solo/reloads/login+drone+login/t0'
+        md, ms = (12, 60000) if tier != 'quick' else (7, 8000)
+    else:
+        services = [('a.svc', 'login'), ('b.svc', 'dronecheck')]
+        rules = [('A-acct', {'account': 'ac1l*', 'class': 'cA'}), ('b-newcomer', {'xreply_ok': 'ghost.svc', 'class': 'cG'}), ('c-old', {'xreply_ok': 'a.svc', 'class': 'cO'}),
+                 ('d-host', {'hostname': 'host1*', 'class': 'cH'})]
+        tables = {'no-a.conf': services[1:], 'ghost.conf': [('b.svc', 'dronecheck'), ('ghost.svc', 'login')], 'orig.conf': services}
+        alph = reload_alphabet([1], replies=('OK', 'OKA'), files=tuple(tables))
+        label = 'solo/reloads-slot/login+drone/t0'
+        md, ms = (12, 60000) if tier != 'quick' else (8, 12000)
+    files = {n: (lambda md_, t=t: e1.conf_text(md_, services=t, timeout=0, rules=rules)) for n, t in tables.items()}
+    return dict(label=label, services=services, rules=rules, timeout=0, ids=[1], alphabet=alph, flags=e1.F_DUMP | e1.F_STATS,
+                maxdepth=md, maxstates=ms, keep_refs=True, reload_files=files, reload_tables=tables, merge_check=False)
 
 
 def plan_solo(tier, which=('hurry', 'orders')):
@@ -160,7 +174,7 @@ def run_plan(pid, tier, plan, prefixes, need_witnesses=(), crash_is_violation=Fa
                 other_tags[tag] = other_tags.get(tag, 0) + n
         for sid, ev, cev, cr in s.crashes:
             msg = '[%s] the daemon died (%s) on %s after %s: %s' % (label, cr['status'], proto.ev_str(ev), ' | '.join(proto.ev_str(e) for e in s.sym_history(sid)) or '-', (cr['err'].strip().splitlines() or [''])[0][:200])
-            if crash_is_violation:
+            if crash_is_violation is True or (crash_is_violation and ev[0] in crash_is_violation):
                 run.violation(pid + '.crash', msg, s.replay_obj(sid, ev, cev, {'clause': pid + '.crash', 'search': label, 'stderr': cr['err']}), dedup=label + '|crash|' + ev[0])
             else:
                 other_tags['crash'] = other_tags.get('crash', 0) + 1
@@ -200,6 +214,21 @@ def run_plan(pid, tier, plan, prefixes, need_witnesses=(), crash_is_violation=Fa
     return run.finish(cov, assumptions=list(assumptions) + [
         'libevent, libc and the dynamic loader are trusted; calling the read handler directly equals what the event loop does (checked by the conformance replays)',
         'field contents come from a fixed menu per client id; alphabets and budgets as listed per search'])
+
+
+def extra_search(run, spec, prefixes, retag=None):
+    """One BFS search run inside a check that is not plan-driven; violations of the listed clauses are reported (optionally under another tag)."""
+    kw = dict(spec)
+    kw.pop('merge_check', None)
+    label = kw.pop('label')
+    s = psearch.Search(run, kw.pop('services'), kw.pop('rules'), kw.pop('timeout'), kw.pop('ids'), kw.pop('alphabet'), label=label, **kw)
+    s.go()
+    for tag, text, sid, ev, cev, out in s.violations:
+        if any(tag.startswith(p) for p in prefixes):
+            t2 = retag or tag
+            run.violation(t2, '[%s] %s  (history: %s => %s)' % (label, text, ' | '.join(proto.ev_str(e) for e in s.sym_history(sid)) or '-', proto.ev_str(ev)),
+                          s.replay_obj(sid, ev, cev, {'clause': tag, 'search': label}), dedup=label + '|' + tag)
+    return {'search': label, 'states': len(s.states), 'transitions': s.transitions, 'fixpoint': s.complete, 'levels': s.levels_done, 'witnesses': sorted(s.witnesses)}
 
 
 # ---- serial sweep: the same conversation after n-1 earlier announcements -------------------------------------------
@@ -298,6 +327,10 @@ def replay(obj):
             f.write(text)
     srv = e1.Server(conf, builddir=b)
     w = proto.World([tuple(x) for x in r['services']], [(n, kv) for n, kv in r['rules']], srv.banner, r['timeout'])
+    worlds = psearch.make_worlds({'services': [tuple(x) for x in r['services']], 'rules': [(n, kv) for n, kv in r['rules']], 'timeout': r['timeout'],
+                                  'reload_tables': {p: [tuple(x) for x in t] for p, t in (r.get('reload_tables') or {}).items()}}, srv.banner)
+    if worlds:
+        w = worlds[None]
     M = proto.initial_M(r['ids'])
     old = {}
     hit = False
@@ -312,6 +345,9 @@ def replay(obj):
                 hit = True
                 break
             M, V, W = proto.step(w, M, syms[n], ctx, ctx['serial'] + 1, x.out)
+            if syms[n][0] == 'RL' and syms[n][1] in worlds:
+                M = proto.reload_step(M, w, worlds[syms[n][1]])
+                w = worlds[syms[n][1]]
             ncur = {d['id']: d['serial'] for d in x.dump if d['t'] == 'req'}
             for j, s in ctx['cur'].items():
                 if ncur.get(j) != s:
